@@ -8,6 +8,7 @@ import (
 	"net/http/httptest"
 	"net/url"
 	"os"
+	"path"
 	"runtime/debug"
 	"sort"
 	"strings"
@@ -202,43 +203,63 @@ func respClass(code int) string {
 
 const base = "/kapacitor/v1"
 
-func (w *world) listTasks() string {
+// taskQuery: the query of a task listing that asks for the fields the model's record has.
+func taskQuery() url.Values {
 	q := url.Values{}
 	q.Set("script-format", "raw")
 	for _, f := range []string{"type", "dbrps", "script", "status", "executing", "template-id", "vars"} {
 		q.Add("fields", f)
 	}
+	return q
+}
+
+type taskJSON struct {
+	ID         string          `json:"id"`
+	Type       string          `json:"type"`
+	DBRPs      []client.DBRP   `json:"dbrps"`
+	Script     string          `json:"script"`
+	Status     string          `json:"status"`
+	Executing  bool            `json:"executing"`
+	TemplateID string          `json:"template-id"`
+	Vars       json.RawMessage `json:"vars"`
+}
+
+// id;type;status;executing;template;script;vars;dbrps
+func renderTask(t taskJSON) string {
+	st := "d"
+	if t.Status == "enabled" {
+		st = "e"
+	}
+	ex := "0"
+	if t.Executing {
+		ex = "1"
+	}
+	return strings.Join([]string{kit.Esc(t.ID), dash(t.Type), st, ex, tmplTok(t.TemplateID), scriptIDOf(t.Script), varsIDOf(t.Vars), renderDBRPs(t.DBRPs)}, ";")
+}
+
+// getTasks issues GET /tasks with the given query: answer class, rendered rows, IDs in the order shown.
+func (w *world) getTasks(q url.Values) (cls string, rows, ids []string) {
 	cls, body := w.do("GET", base+"/tasks?"+q.Encode(), nil)
 	if cls != "ok" {
-		return "tasks=" + cls
+		return cls, nil, nil
 	}
 	var r struct {
-		Tasks []struct {
-			ID         string          `json:"id"`
-			Type       string          `json:"type"`
-			DBRPs      []client.DBRP   `json:"dbrps"`
-			Script     string          `json:"script"`
-			Status     string          `json:"status"`
-			Executing  bool            `json:"executing"`
-			TemplateID string          `json:"template-id"`
-			Vars       json.RawMessage `json:"vars"`
-		} `json:"tasks"`
+		Tasks []taskJSON `json:"tasks"`
 	}
 	if err := json.Unmarshal(body, &r); err != nil {
-		return "tasks=undecodable"
+		return "undecodable", nil, nil
 	}
-	var out []string
 	for _, t := range r.Tasks {
-		st := "d"
-		if t.Status == "enabled" {
-			st = "e"
-		}
-		ex := "0"
-		if t.Executing {
-			ex = "1"
-		}
-		// id;type;status;executing;template;script;vars;dbrps
-		out = append(out, strings.Join([]string{kit.Esc(t.ID), dash(t.Type), st, ex, tmplTok(t.TemplateID), scriptIDOf(t.Script), varsIDOf(t.Vars), renderDBRPs(t.DBRPs)}, ";"))
+		rows = append(rows, renderTask(t))
+		ids = append(ids, kit.Esc(t.ID))
+	}
+	return cls, rows, ids
+}
+
+func (w *world) listTasks() string {
+	cls, out, _ := w.getTasks(taskQuery())
+	if cls != "ok" {
+		return "tasks=" + cls
 	}
 	if len(out) == 0 {
 		return "tasks=-"
@@ -246,14 +267,18 @@ func (w *world) listTasks() string {
 	return "tasks=" + strings.Join(out, "|")
 }
 
-func (w *world) listTemplates() string {
+func tmplQuery() url.Values {
 	q := url.Values{}
 	q.Set("script-format", "raw")
 	q.Add("fields", "script")
 	q.Add("fields", "type")
+	return q
+}
+
+func (w *world) getTemplates(q url.Values) (cls string, rows, ids []string) {
 	cls, body := w.do("GET", base+"/templates?"+q.Encode(), nil)
 	if cls != "ok" {
-		return "tmpls=" + cls
+		return cls, nil, nil
 	}
 	var r struct {
 		Templates []struct {
@@ -263,16 +288,97 @@ func (w *world) listTemplates() string {
 		} `json:"templates"`
 	}
 	if err := json.Unmarshal(body, &r); err != nil {
-		return "tmpls=undecodable"
+		return "undecodable", nil, nil
 	}
-	var out []string
 	for _, t := range r.Templates {
-		out = append(out, strings.Join([]string{tmplTok(t.ID), dash(t.Type), scriptIDOf(t.Script)}, ";"))
+		rows = append(rows, strings.Join([]string{tmplTok(t.ID), dash(t.Type), scriptIDOf(t.Script)}, ";"))
+		ids = append(ids, tmplTok(t.ID))
+	}
+	return cls, rows, ids
+}
+
+func (w *world) listTemplates() string {
+	cls, out, _ := w.getTemplates(tmplQuery())
+	if cls != "ok" {
+		return "tmpls=" + cls
 	}
 	if len(out) == 0 {
 		return "tmpls=-"
 	}
 	return "tmpls=" + strings.Join(out, "|")
+}
+
+// page: `page tasks|tmpls pat=<escaped pattern|-> off=<n|-> lim=<n|-> f=<std|all|id>` — one PAGED / FILTERED listing
+// request (GET /tasks or /templates with pattern, offset, limit; "-" = the parameter is not sent). f=std asks for the
+// fields of the model's record, f=all sends no `fields` (every field, incl. dot / stats), f=id asks for the ID only.
+// Observation: answer class, the IDs in the order shown, the rendered rows (na for f=id), and — oracle cross-check of
+// the model's glob fragment — which IDs of the pool the real path.Match accepts (pm=) and rejects (pn=).
+func (w *world) page(kind string, a map[string]string) string {
+	pat := ""
+	if p, ok := a["pat"]; ok && p != "-" {
+		u, err := kit.Unesc(p)
+		if err != nil {
+			return "bad-pattern-token"
+		}
+		pat = u
+	}
+	var q url.Values
+	switch {
+	case a["f"] == "all":
+		q = url.Values{}
+		q.Set("script-format", "raw")
+	case a["f"] == "id":
+		q = url.Values{}
+		q.Add("fields", "id")
+	case kind == "tasks":
+		q = taskQuery()
+	default:
+		q = tmplQuery()
+	}
+	if pat != "" {
+		q.Set("pattern", pat)
+	}
+	if o, ok := a["off"]; ok && o != "-" {
+		q.Set("offset", o)
+	}
+	if l, ok := a["lim"]; ok && l != "-" {
+		q.Set("limit", l)
+	}
+	var cls string
+	var rows, ids []string
+	pool := taskIDs
+	if kind == "tasks" {
+		cls, rows, ids = w.getTasks(q)
+	} else {
+		cls, rows, ids = w.getTemplates(q)
+		pool = append(append([]string{}, tmplIDs...), "V")
+	}
+	if cls != "ok" {
+		return cls
+	}
+	var pm, pn []string
+	for _, id := range pool {
+		ok := pat == ""
+		if pat != "" {
+			ok, _ = path.Match(pat, id)
+		}
+		if ok {
+			pm = append(pm, id)
+		} else {
+			pn = append(pn, id)
+		}
+	}
+	join := func(xs []string, sep string) string {
+		if len(xs) == 0 {
+			return "-"
+		}
+		return strings.Join(xs, sep)
+	}
+	rowTok := join(rows, "|")
+	if a["f"] == "id" {
+		rowTok = "na"
+	}
+	return "ok ids=" + join(ids, ",") + " rows=" + rowTok + " pm=" + join(pm, ",") + " pn=" + join(pn, ",")
 }
 
 // executing set straight from the TaskMaster (also for IDs the catalogue no longer lists)
@@ -576,6 +682,13 @@ func execCase(ops []string) (out []string) {
 					return "error"
 				}
 				return "ok"
+			})
+		case "page":
+			guard(line, func() string {
+				if len(t) < 2 || (t[1] != "tasks" && t[1] != "tmpls") {
+					return "unknown-op"
+				}
+				return w.page(t[1], a)
 			})
 		case "list":
 			guard(line, func() string {
